@@ -93,7 +93,7 @@ func TestVerif_C07(t *testing.T) {
 	res.assume("not exercised: allocation detecting a completely full 2^32 TEID space (needs 2^32 live TEIDs)")
 
 	// ---- (a) TEID generator: sequential with wrap-around and holes, against a set model
-	for k := 0; k < vEnv.pick(1600, 20000); k++ {
+	for k := 0; k < vEnv.pick(1600, 200000); k++ {
 		idx := k
 		if !vEnv.mine(idx) {
 			continue
@@ -143,7 +143,7 @@ func TestVerif_C07(t *testing.T) {
 	}
 
 	// ---- (b) TEID generator: concurrent, porcupine
-	for k := 0; k < vEnv.pick(4800, 60000); k++ {
+	for k := 0; k < vEnv.pick(4800, 400000); k++ {
 		idx := 1000000 + k
 		if !vEnv.mine(idx) {
 			continue
@@ -232,7 +232,7 @@ func TestVerif_C07(t *testing.T) {
 }
 
 func c07Fseid(res *vResult) {
-	n := vEnv.pick(240, 3000)
+	n := vEnv.pick(240, 20000)
 	var a *vAgent
 	defer func() {
 		if a != nil {
@@ -351,7 +351,7 @@ func c07Fseid(res *vResult) {
 }
 
 func c07EndToEnd(res *vResult) {
-	n := vEnv.pick(96, 1200)
+	n := vEnv.pick(96, 8000)
 	for k := 0; k < n; k++ {
 		idx := 3000000 + k
 		if !vEnv.mine(idx) {
